@@ -503,7 +503,9 @@ impl Wal {
         // unreachable after the next restart, so later commits must start at the valid end.
         let valid_len = WalReader::valid_prefix_len(&path)?;
         if file.metadata()?.len() > valid_len {
+            vio!(SetLen { path: path.clone(), len: valid_len });
             file.set_len(valid_len)?;
+            vio!(Sync { path: path.clone() });
             file.sync_data()?;
         }
 
